@@ -45,6 +45,16 @@ RULE = ('cases = rule graphs over <= 6 names, bodies from the expression generat
         'enforcer or one that has loaded / validated an earlier version of the file; the rest of the rule set is clean by '
         'construction (no undefined reference, no cycle), so the expected status is 1 for the unregistered name alone, and 0 '
         'for the control in which the service registers those names as well. '
+        'R = the rule set reaches the enforcer by every public route, in layers: Enforcer(rules=...), several set_rules() calls '
+        '(overwrite=True replaces, overwrite=False merges; rules added and rules replaced), a main policy file with one to three '
+        'policy.d files merged over it (two directories, file-name order), set_rules(overwrite=False) after a load, constructor '
+        'rules with overwrite=False under the files; registered defaults that are loaded (use_conf=True: they define the names no '
+        'layer defines, and lie dormant for the others) or not loaded (use_conf=False: a registered name that set_rules() did not '
+        'give is not a rule of the set, whatever its default refers to); the references of the graph point to names defined in '
+        'another layer, nowhere, only by a default that was not loaded, or close a cycle ACROSS layers, and replaced definitions / '
+        'dormant defaults carry bad references of their own: check_rules(), raise_on_violation and the bounded-progress clause '
+        '(also whenever nothing was reported) are judged against the independent analysis of the EFFECTIVE rule set, the fold of '
+        'the layers (a case whose enforcer does not hold exactly those names is counted unconstrained, not judged). '
         'Non-trivial = the graph has at least one reference; '
         'distinct = distinct rule set.')
 ASSUMPTIONS = ['"evaluating any rule terminates" is restated as bounded progress: completes under recursion limit 400 '
@@ -66,7 +76,12 @@ MIN = {'evaluations': 500, 'graphs_clean': 100, 'graphs_undefined': 50, 'graphs_
        'unregistered_referenced_under_not': 80, 'unregistered_referenced_by_several_rules': 60,
        'unregistered_referenced_by_alias': 25, 'unregistered_referenced_by_unregistered': 40,
        'unregistered_referenced_by_default_not_in_file': 50, 'unregistered_refers_to_registered': 20,
-       'unregistered_default_rule_name': 30, 'unregistered_living_enforcer': 40}
+       'unregistered_default_rule_name': 30, 'unregistered_living_enforcer': 40,
+       'routes_verdicts': 240, 'routes_constructor_rules': 60, 'routes_set_rules_merge': 110,
+       'routes_policy_d_over_main_file': 110, 'routes_files_then_set_rules': 35,
+       'routes_reference_to_registered_default_not_loaded': 50, 'routes_rule_defined_by_loaded_default_only': 90,
+       'routes_cycle_across_layers': 30, 'routes_merge_brings_bad_reference': 25, 'routes_merge_replaces_bad_rule': 15,
+       'routes_clean_rule_evaluations': 1000}
 ANCHORS = ['oslo_policy.policy:Enforcer.check_rules', 'oslo_policy.policy:Enforcer._undefined_check',
            'oslo_policy.policy:Enforcer._cycle_check', 'oslo_policy.generator:_validate_policy']
 REQUIRED_ANCHORS = ['oslo_policy.policy:Enforcer.check_rules']
@@ -994,7 +1009,287 @@ def check_unregistered(ctx, case):
                                   'history': history, 'exit_status': got, 'expected': want, 'output': output[:300]})
 
 
+# ---------------------------------------------------------------------------
+# stratum R: the rule set reaches the enforcer by every public ROUTE, in LAYERS.  Enforcer(rules=...), set_rules() called
+# several times (overwrite=True replaces, overwrite=False merges), a main policy file with one to three policy.d files applied
+# over it (each a merge), registered defaults that are loaded (use_conf=True: they define the names no layer defines) or are
+# NOT loaded (use_conf=False: the enforcer holds what set_rules() gave it and nothing else, a registered name that is not in
+# the set is not a rule of the set).  The report is judged against the graph of the EFFECTIVE rule set - the fold of the
+# layers - wherever its rules came from: a rule that a later layer replaced does not count, a rule that a merge brought does.
+ROUTES = ['ctor', 'set_rules', 'set_rules', 'files', 'files', 'files+set_rules', 'ctor+files']
+REG_ONLY = ['r0', 'r1', 'svc:base', 'admin_required']
+DIR_FILES = ['10-a.yaml', '20-b.json', '30-c.yaml']
+N_ROUTES = {'quick': 1200, 'thorough': 30000}
+
+
+def gen_routes(rnd):
+    g = gen_graph(rnd)
+    rules = dict(g['rules'])
+    names = sorted(rules)
+    route = rnd.choice(ROUTES)
+    loaded = 'files' in route
+    refnames = names + ['ghost']
+
+    def stray():
+        """a definition that a later layer replaces, or a registered default that is not in effect"""
+        r = rnd.random()
+        if r < 0.3:
+            return ('text', rnd.choice(PLAIN_TEXTS))
+        if r < 0.6:
+            return embed(rnd, rnd.choice(EMBEDDINGS), ('text', rnd.choice(PLAIN_TEXTS)), ('ref', rnd.choice(refnames)))
+        return gen_body(rnd, rnd.randint(0, 2), PLAIN_TEXTS + ['rule:' + x for x in refnames])
+
+    registered = {}
+    only_default = set()
+    if loaded:
+        for n in names:
+            r = rnd.random()
+            if r < 0.2:
+                only_default.add(n)                     # no layer defines it: the registered default is the rule
+                registered[n] = rules[n]
+            elif r < 0.45:
+                registered[n] = stray()                 # a layer defines it: this default is not in effect
+        if rnd.random() < 0.3:
+            x = rnd.choice(REG_ONLY)
+            registered[x] = stray()                     # loaded: a rule of the set like any other
+            refnames.append(x)
+            n = rnd.choice(names)
+            if rnd.random() < 0.6:
+                rules[n] = embed(rnd, rnd.choice(EMBEDDINGS), rules[n], ('ref', x))
+                if n in only_default:
+                    registered[n] = rules[n]
+    elif rnd.random() < 0.7:
+        extra = rnd.sample(REG_ONLY, rnd.randint(1, 2))
+        for x in extra:
+            # registered, never loaded; it may refer back into the set
+            registered[x] = rnd.choice([('text', 'role:a'), ('ref', rnd.choice(names)), ('ref', rnd.choice(extra)),
+                                        embed(rnd, rnd.choice(EMBEDDINGS), ('text', 'role:b'), ('ref', rnd.choice(names)))])
+        if rnd.random() < 0.75:
+            for n in rnd.sample(names, rnd.randint(1, min(2, len(names)))):
+                rules[n] = embed(rnd, rnd.choice(EMBEDDINGS), rules[n], ('ref', rnd.choice(extra)))
+        for n in names:
+            if rnd.random() < 0.25:
+                registered[n] = stray()
+    nlayers = rnd.randint(1, 4) if not loaded else rnd.randint(2, 4)
+    layers = [{} for _ in range(nlayers)]
+    for n in names:
+        if n in only_default:
+            continue
+        home = rnd.randrange(nlayers)
+        layers[home][n] = rules[n]
+        for j in range(home):
+            if rnd.random() < 0.35:
+                layers[j][n] = stray()
+    case = dict(routes=True, route=route, shape=g['shape'], registered=registered, use_conf=loaded, enforcer_overwrite=True,
+                ctor=None, main=None, dirs=[], calls=[], plain_dict=rnd.random() < 0.3)
+
+    def junk():
+        return [dict(rules=gen_graph(rnd)['rules'], overwrite=rnd.random() < 0.5) for _ in range(rnd.randint(0, 2))]
+
+    def files_from(ls):
+        if not ls:
+            return
+        if rnd.random() < 0.85:
+            case['main'] = dict(rules=ls[0], fmt=rnd.choice(['yaml', 'json']))
+            ls = ls[1:]
+        ls = ls[:3]
+        k = rnd.randint(0, len(ls))
+        case['dirs'] = [[[DIR_FILES[i], l] for i, l in enumerate(ls[:k])], [[DIR_FILES[i], l] for i, l in enumerate(ls[k:])]]
+
+    if route == 'set_rules':
+        case['calls'] = junk()
+        first_overwrite = True if case['calls'] else rnd.random() < 0.7
+        case['calls'] += [dict(rules=layers[0], overwrite=first_overwrite)] + [dict(rules=l, overwrite=False) for l in layers[1:]]
+    elif route == 'ctor':
+        if rnd.random() < 0.3:
+            case['ctor'] = gen_graph(rnd)['rules']
+            case['calls'] = junk() + [dict(rules=layers[0], overwrite=True)]
+        else:
+            case['ctor'] = layers[0]
+        case['calls'] += [dict(rules=l, overwrite=False) for l in layers[1:]]
+    elif route == 'files':
+        files_from(layers)
+    elif route == 'files+set_rules':
+        files_from(layers[:-1])
+        case['calls'] = [dict(rules=layers[-1], overwrite=False)]
+    else:
+        case['ctor'] = layers[0]
+        case['enforcer_overwrite'] = False              # the files are merged over what the constructor was given
+        files_from(layers[1:])
+    return case
+
+
+def routes_stages(case):
+    """The fold of the layers: [(what happened, 'replace' | 'merge' | 'defaults', rule set after it)]."""
+    J = lambda d: {k: fromjson(v) for k, v in d.items()}
+    stages = []
+    eff = {}
+    if case.get('ctor') is not None:
+        eff = J(case['ctor'])
+        stages.append(('Enforcer(rules=...)', 'replace', dict(eff)))
+    if case['use_conf']:
+        keep = not case.get('enforcer_overwrite', True)
+        if case.get('main') is not None:
+            eff = dict(eff, **J(case['main']['rules'])) if keep else J(case['main']['rules'])
+            stages.append(('main policy file', 'merge' if keep else 'replace', dict(eff)))
+        elif not keep:
+            eff = {}
+        for d in case.get('dirs', []):
+            for fname, l in sorted(d):
+                eff = dict(eff, **J(l))
+                stages.append(('policy.d file ' + fname, 'merge', dict(eff)))
+        for n, a in J(case['registered']).items():
+            eff.setdefault(n, a)
+        stages.append(('registered defaults', 'defaults', dict(eff)))
+    for c in case.get('calls', []):
+        eff = J(c['rules']) if c['overwrite'] else dict(eff, **J(c['rules']))
+        stages.append(('set_rules(overwrite=%s)' % bool(c['overwrite']), 'replace' if c['overwrite'] else 'merge', dict(eff)))
+    return stages, eff
+
+
+def _recursion_in(exc):
+    seen = 0
+    while exc is not None and seen < 50:
+        if isinstance(exc, RecursionError):
+            return True
+        exc = exc.__cause__ or exc.__context__
+        seen += 1
+    return False
+
+
+def check_routes(ctx, case):
+    from oslo_policy import policy
+    stages, eff = routes_stages(case)
+    registered = {k: fromjson(v) for k, v in case['registered'].items()}
+    texts = {k: text_of(v) for k, v in eff.items()}
+    undefined, cyclic, under_not = analyse(eff)
+    problem = undefined or cyclic
+    T = lambda d: {k: text_of(fromjson(v)) for k, v in d.items()}
+    as_rules = lambda d: (dict(policy.Rules.from_dict(T(d))) if case.get('plain_dict') else policy.Rules.from_dict(T(d)))
+    detail = {'route': case['route'], 'layers': [[what, kind] for what, kind, _ in stages], 'rules_in_effect': texts,
+              'registered_defaults': T(case['registered']), 'registered_defaults_loaded': bool(case['use_conf']),
+              'independent_analysis': {'undefined': undefined, 'reaches_cycle': cyclic}}
+    # (no sandbox tree for the routes that never look at a file: use_conf=False)
+    tree = files.Tree(dirs=()) if case['use_conf'] else None
+    try:
+        if case.get('main') is not None:
+            tree.write(os.path.basename(tree.main), T(case['main']['rules']), case['main'].get('fmt', 'yaml'))
+        for dname, d in zip(('d1', 'd2'), case.get('dirs', [])):
+            if d:
+                tree.mkdir(dname)
+            for fname, l in d:
+                tree.write(dname + '/' + fname, T(l), 'json' if fname.endswith('.json') else 'yaml')
+        try:
+            kw = {}
+            if case.get('ctor') is not None:
+                kw['rules'] = as_rules(case['ctor'])
+            enf = policy.Enforcer(tree.conf() if tree else env.fresh_conf(), use_conf=bool(case['use_conf']),
+                                  overwrite=bool(case.get('enforcer_overwrite', True)), **kw)
+            enf.register_defaults([policy.RuleDefault(n, text_of(a)) for n, a in sorted(registered.items())])
+            if case['use_conf']:
+                enf.load_rules()
+            for c in case.get('calls', []):
+                enf.set_rules(as_rules(c['rules']), overwrite=bool(c['overwrite']))
+            held = set(enf.rules)
+            got = enf.check_rules()
+        except Exception as e:
+            ctx.violation('routes-check_rules-raises', case, dict(detail, observed=type(e).__name__))
+            return
+        ctx.case(['routes', case['route'], [[w, T_(s)] for w, _, s in stages], T(case['registered'])],
+                 nontrivial=any(all_refs(a) for a in eff.values()), stratum='R')
+        if held != set(eff):
+            # which names the enforcer holds after these steps is the subject of other properties (C09, C12): not judged here
+            ctx.unconstrained('routes-rule-set-differs-from-the-fold-of-the-layers')
+            return
+        ctx.count('routes_verdicts')
+        ctx.count('routes_' + ('undefined' if undefined else 'cyclic' if cyclic else 'clean'))
+        ctx.observe('routes_shapes', '%s/%s' % (case['route'], case['shape']))
+        merges = [i for i, (_, kind, _) in enumerate(stages) if kind == 'merge' and i > 0]
+        if case.get('ctor') is not None:
+            ctx.count('routes_constructor_rules')
+        if any(i for i in merges if stages[i][0].startswith('set_rules')):
+            ctx.count('routes_set_rules_merge')
+        if any(i for i in merges if stages[i][0].startswith('policy.d')):
+            ctx.count('routes_policy_d_over_main_file')
+        if case['use_conf'] and case.get('calls'):
+            ctx.count('routes_files_then_set_rules')
+        if merges:
+            before = analyse(stages[merges[-1] - 1][2])
+            after = analyse(stages[merges[-1]][2])
+            if not (before[0] or before[1]) and (after[0] or after[1]):
+                ctx.count('routes_merge_brings_bad_reference')
+            if (before[0] or before[1]) and not (after[0] or after[1]):
+                ctx.count('routes_merge_replaces_bad_rule')
+        sources = [s for s in ([case.get('ctor')] + [(case.get('main') or {}).get('rules')] +
+                               [l for d in case.get('dirs', []) for _, l in d] + [c['rules'] for c in case.get('calls', [])])
+                   if s]
+        if cyclic and not any(analyse({k: fromjson(v) for k, v in s.items()})[1] for s in sources):
+            ctx.count('routes_cycle_across_layers')
+        if not case['use_conf'] and any(r in registered and r not in eff for a in eff.values() for r, _ in all_refs(a)):
+            ctx.count('routes_reference_to_registered_default_not_loaded')
+        if case['use_conf'] and any(n in registered and not any(n in s for s in sources) for n in eff):
+            ctx.count('routes_rule_defined_by_loaded_default_only')
+        old = sys.getrecursionlimit()
+
+        def evaluate(key_hang, key_raises):
+            """bounded progress: every rule of a set reported clean evaluates under a low recursion ceiling"""
+            sys.setrecursionlimit(_depth() + 400)
+            try:
+                for n in sorted(eff):
+                    for roles in SUBSETS:
+                        try:
+                            enf.enforce(n, {}, {'roles': list(roles)})
+                            ctx.count('routes_clean_rule_evaluations')
+                        except Exception as e:
+                            if _recursion_in(e):
+                                ctx.violation(key_hang, case, dict(detail, check_rules=got, enforced=n))
+                            else:
+                                ctx.violation(key_raises, case, dict(detail, enforced=n, observed=type(e).__name__))
+                            return
+            finally:
+                sys.setrecursionlimit(old)
+
+        if bool(got) != (not problem):
+            ctx.violation('routes-' + classify(undefined, cyclic, under_not, bool(got), not problem), case,
+                          dict(detail, check_rules=got))
+            if got:
+                # nothing was reported: then evaluating any rule must terminate, whatever the analysis says
+                evaluate('routes-nothing-reported-does-not-terminate', 'routes-nothing-reported-evaluation-raises')
+            return
+        try:
+            enf.check_rules(raise_on_violation=True)
+            raised = False
+        except policy.InvalidDefinitionError:
+            raised = True
+        except Exception as e:
+            raised = 'EXC:' + type(e).__name__
+        if raised != problem:
+            ctx.violation('routes-raise_on_violation-disagrees', case, dict(detail, raised=raised, problem=problem))
+            return
+        if not problem:
+            evaluate('routes-clean-set-does-not-terminate', 'routes-clean-set-evaluation-raises')
+    finally:
+        if tree:
+            tree.cleanup()
+
+
+def T_(d):
+    return {k: text_of(v) for k, v in d.items()}
+
+
 def run(ctx):
+    # stratum R first (own random stream; a bounded share of the budget, so that it is not the one lost under load)
+    rnd = ctx.sub_rnd('routes', ctx.tier, ctx.shard, ctx.nshards)
+    ctx.reserve(0.2)
+    for i in range(N_ROUTES[ctx.tier] // ctx.nshards + 1):
+        if (i & 0xf) == 0 and ctx.expired():
+            break
+        case = gen_routes(rnd)
+        check_routes(ctx, case)
+        if i % 100 == 0:
+            ctx.sample({'route': case['route'], 'layers': [[w, T_(s)] for w, _, s in routes_stages(case)[0]],
+                        'registered': {k: text_of(fromjson(v)) for k, v in case['registered'].items()}}, 'R')
+    ctx.release()
     ng, nw = N[ctx.tier]
     for i in range(ng // ctx.nshards + 1):
         if (i & 0x3f) == 0 and ctx.expired():
@@ -1062,7 +1357,9 @@ def run(ctx):
 
 
 def replay(ctx, case):
-    if case.get('unregistered'):
+    if case.get('routes'):
+        check_routes(ctx, case)
+    elif case.get('unregistered'):
         check_unregistered(ctx, case)
     elif case.get('deprecated'):
         check_deprecated(ctx, case)
